@@ -24,7 +24,7 @@ WORKFLOW_PY = r'''
 import json, os, pathlib
 from gwf import Workflow, AnonymousTarget
 
-HERE = os.path.dirname(os.path.realpath(__file__))
+HERE = os.path.dirname(os.path.abspath(__file__))
 with open(os.path.join(HERE, "wf.json")) as _f:
     DESC = json.load(_f)
 
@@ -52,6 +52,9 @@ if DESC.get("defaults") is not None:
     _kw["defaults"] = DESC["defaults"]
 if DESC.get("workflow_wd") is not None:
     _kw["working_dir"] = os.path.join(HERE, DESC["workflow_wd"])
+if DESC.get("wf_link") and "working_dir" not in _kw:
+    # the script is shared between projects through a symbolic link; the data lives next to the link
+    _kw["working_dir"] = HERE
 gwf = Workflow(**_kw)
 
 for t in DESC["targets"]:
@@ -69,6 +72,12 @@ for t in DESC["targets"]:
                               options=t.get("template_options") or {}, protect=dec(t.get("protect", [])),
                               spec=t.get("spec", ""), **kw)
         gwf.target_from_template(t["name"], tpl, **opts)
+
+if DESC.get("obj"):
+    # the workflow proper lives under another name; `gwf` is a different workflow of the same file
+    globals()[DESC["obj"]] = gwf
+    gwf = Workflow()
+    gwf.target("Decoy", inputs=[], outputs=["decoy.out"]) << "echo decoy\n"
 '''
 
 CLIENT = '''#!{py} -SE
@@ -182,7 +191,12 @@ class Project:
     base_mtime = BASE_MTIME  # mtime of tick 0 (instances may override)
     tick_step = 10  # seconds between two ticks (a fraction exercises sub-second mtimes)
 
-    def __init__(self, desc, backend="slurm", config=None, first_id=1001, subdirs=()):
+    def __init__(self, desc, backend="slurm", config=None, first_id=1001, subdirs=(), invoke=None):
+        """invoke: how the commands of this project are invoked (see gen.invoke): {"plan": [0|1|2, ...] - per
+        command, cyclically: from the project root / from a sub-directory (gwf searches upwards) / from a
+        directory outside the project with -f <path>; "obj": name under which the workflow object lives in
+        workflow.py, next to a decoy workflow called `gwf`; "wf_link": workflow.py is a symbolic link to a
+        script kept in another directory}.  Commands given an explicit cwd are not affected."""
         base = scratch.base()
         self.dir = os.path.realpath(tempfile.mkdtemp(prefix="gwfproj", dir=base))
         self.backend = backend
@@ -190,8 +204,23 @@ class Project:
         self.tick = 0
         self.desc = None
         self._server = None
-        with open(os.path.join(self.dir, "workflow.py"), "w") as f:
-            f.write(WORKFLOW_PY)
+        self.invoke = dict(invoke or {})
+        self.invoke_labels = set()
+        self._calls = 0
+        if self.invoke.get("wf_link"):
+            os.makedirs(self.dir + "_shared")
+            with open(os.path.join(self.dir + "_shared", "workflow.py"), "w") as f:
+                f.write(WORKFLOW_PY)
+            os.symlink(os.path.join(self.dir + "_shared", "workflow.py"), os.path.join(self.dir, "workflow.py"))
+            self.invoke_labels.add("workflow-file-symlinked")
+        else:
+            with open(os.path.join(self.dir, "workflow.py"), "w") as f:
+                f.write(WORKFLOW_PY)
+        if self.invoke.get("obj"):
+            with open(os.path.join(self.dir, "decoy.out"), "w") as f:
+                f.write("output of the other workflow in this file\n")
+            os.utime(os.path.join(self.dir, "decoy.out"), (BASE_MTIME, BASE_MTIME))
+            self.invoke_labels.add("named-workflow-object-with-decoy")
         self.write_desc(desc)
         cfg = {"backend": backend}
         cfg.update(config or {})
@@ -206,7 +235,12 @@ class Project:
     def write_desc(self, desc):
         self.desc = desc
         with open(self.path("wf.json"), "w") as f:
-            json.dump({k: v for k, v in desc.items() if k != "files"}, f)
+            d = {k: v for k, v in desc.items() if k != "files"}
+            if self.invoke.get("obj"):
+                d["obj"] = self.invoke["obj"]
+            if self.invoke.get("wf_link"):
+                d["wf_link"] = True
+            json.dump(d, f)
         for t in desc["targets"]:
             if t.get("wd"):
                 os.makedirs(self.path(t["wd"]), exist_ok=True)
@@ -295,7 +329,8 @@ class Project:
     # ------------------------------------------------------------ snapshots
     def snapshot(self, semantic_state=True):
         snap = {}
-        for root, dirs, files in os.walk(self.dir):
+        walks = [self.dir] + ([self.dir + "_else"] if os.path.isdir(self.dir + "_else") else [])
+        for root, dirs, files in (x for w in walks for x in os.walk(w)):
             dirs[:] = [d for d in dirs if d != "__pycache__"]
             for fn in files:
                 p = os.path.join(root, fn)
@@ -334,6 +369,37 @@ class Project:
             return {}
 
     # ------------------------------------------------------------ drivers
+    def where(self, args, cwd=None):
+        """Apply the invocation plan: returns (args, cwd)."""
+        if cwd is not None or not self.invoke:
+            return list(args), cwd or self.dir
+        plan = self.invoke.get("plan") or [0]
+        mode = plan[self._calls % len(plan)]
+        self._calls += 1
+        obj = self.invoke.get("obj")
+        wf = "workflow.py" + (":" + obj if obj else "")
+        if mode == 1:
+            d = self.path(os.path.join("_cwd", "deep"))
+            os.makedirs(d, exist_ok=True)
+            self.invoke_labels.add("invoked-from-subdirectory")
+            return (["-f", wf] if obj else []) + list(args), d
+        if mode == 2:
+            d = self.dir + "_else"
+            os.makedirs(d, exist_ok=True)
+            self.invoke_labels.add("invoked-from-elsewhere-with--f")
+            return ["-f", os.path.join(self.dir, wf)] + list(args), d
+        return (["-f", wf] if obj else []) + list(args), self.dir
+
+    def pool_cwd(self):
+        """Directory from which a worker pool of this project is started."""
+        plan = self.invoke.get("plan") or [0]
+        if 1 in plan and not self.invoke.get("obj"):
+            d = self.path(os.path.join("_cwd", "deep"))
+            os.makedirs(d, exist_ok=True)
+            self.invoke_labels.add("pool-started-from-subdirectory")
+            return d
+        return self.dir
+
     def gwf(self, args, input=None, cwd=None, extra_env=None, track_fs=False, syspath0=None, purge_root=None):
         """Run one gwf command in-process (fresh workflow load, fresh state files).
         With track_fs, os.utime/os.open(O_CREAT)/open(w) events inside the project are
@@ -343,7 +409,7 @@ class Project:
 
         import gwf.cli
 
-        args = [str(a) for a in args]
+        args, cwd = self.where([str(a) for a in args], cwd)
         old_cwd = os.getcwd()
         root = logging.getLogger()
         saved_handlers, saved_level = root.handlers[:], root.level
@@ -465,6 +531,7 @@ class Project:
         if extra_env:
             env.update(extra_env)
         code = launcher or "from gwf.cli import main; main()"
+        args, cwd = self.where([str(a) for a in args], cwd)
         p = subprocess.run([PY, "-c", code, *[str(a) for a in args]], cwd=cwd or self.dir, env=env,
                            input=input, capture_output=True, text=True, timeout=timeout)
         return Res([str(a) for a in args], p.returncode, p.stdout, p.stderr, None)
@@ -475,7 +542,13 @@ class Project:
             self._server.server_close()
             shutil.rmtree(os.path.dirname(self._sock), ignore_errors=True)
             self._server = None
+        if self.invoke_labels:
+            from . import runner
+
+            runner.CASE_LABELS.update(self.invoke_labels)
         shutil.rmtree(self.dir, ignore_errors=True)
+        shutil.rmtree(self.dir + "_else", ignore_errors=True)
+        shutil.rmtree(self.dir + "_shared", ignore_errors=True)
 
     def __enter__(self):
         return self
